@@ -3,8 +3,10 @@
 spec/Heap.tla            objects with identity: cells, deep/shallow copy, in-place mutators (heap and pure)
 spec/Isolation.tla       Split.run / Split.fill+compute / fill+request / Zip over mutating branches on a heap;
                          Isolated: every branch yields what it yields alone on pure values
+spec/IsolationNest.tla   the same for NESTED Splits: a tree of Splits (bare or behind prefix elements in a sequence),
+                         every Split copying on its own account; IsolationNestSem.tla: typing, reference per leaf
 spec/Alias.tla           producer / accumulator / consumer on a heap: Fresh, MutateIsLocal (frame property)
-spec/Trace_Isolation.tla, spec/Trace_Alias.tla   validation of recorded executions
+spec/Trace_Isolation.tla, spec/Trace_IsolationNest.tla, spec/Trace_Alias.tla   validation of recorded executions
 lenaverif/aliaslib.py    real branches, real accumulators, snapshots, id() logs
 """
 import copy
@@ -20,14 +22,20 @@ DRIVER = {"run": "Split.run", "fill": "Split.fill+compute", "fillreq": "Split.fi
 
 
 def _size(sc):
+    if "root" in sc:
+        return (len(al.leaves_of(sc["root"])), sc["N"], al.tree_size(sc["root"]))
     return (len(sc["brs"]), sc["N"], sum(len(b["muts"]) for b in sc["brs"]))
 
 
 def check_isolation(sc, exp, found, src_after=None, share=False, nested=False):
     """Run one scenario on the real Split/Zip; exp[b] = pure values branch b yields alone; src_after = the
     flow values as the spec's machine leaves them (the last branch works on the caller's objects).
-    share: stateless elements are one object used in every branch, sequences partly nested."""
-    drv = DRIVER[sc["drv"]]
+    share: stateless elements are one object used in every branch, sequences partly nested (a scenario of
+    nested Splits: a Split without prefix elements is then wrapped into an explicit sequence, else bare);
+    for a tree of Splits the branches are its leaves, numbered depth first."""
+    tree = "root" in sc          # a scenario of IsolationNest: sc["root"] = the sequences of the outermost Split
+    drv = DRIVER[sc["drv"]] + (":nested-splits" if tree else "")
+    nbr = len(al.leaves_of(sc["root"])) if tree else len(sc["brs"])
 
     def report(kind, extra):
         key = "%s:%s" % (drv, kind)
@@ -36,8 +44,12 @@ def check_isolation(sc, exp, found, src_after=None, share=False, nested=False):
             found[key] = dict(extra, scenario=sc, shared_elements=share, inside_outer_split=nested)
 
     try:
-        per, values = al.run_scenario(sc["brs"], sc["N"], sc["bs"], sc["drv"], sc["rq"], share=share,
-                                      shape=sc.get("shape", "pair"), nested=nested, cls=sc.get("cls", "dict"))
+        if tree:
+            per, values = al.run_tree(sc["root"], sc["N"], sc["bs"], sc["drv"], sc["rq"], share=share,
+                                      shape=sc.get("shape", "pair"), cls=sc.get("cls", "dict"))
+        else:
+            per, values = al.run_scenario(sc["brs"], sc["N"], sc["bs"], sc["drv"], sc["rq"], share=share,
+                                          shape=sc.get("shape", "pair"), nested=nested, cls=sc.get("cls", "dict"))
     except Exception as exc:      # noqa
         report("raised:" + exc_name(exc), {"exception": repr(exc)[:300]})
         return None
@@ -51,7 +63,7 @@ def check_isolation(sc, exp, found, src_after=None, share=False, nested=False):
                 report("callers-value-changed", {"index": j, "now": now, "allowed": al.norm_pure(src_after[j])})
                 break
     outs = []
-    for b in range(1, len(sc["brs"]) + 1):
+    for b in range(1, nbr + 1):
         want = [al.norm_pure(x) for x in exp[b - 1]]
         got_yield = [p[0] for p in per.get(b, [])]
         got_end = [p[1] for p in per.get(b, [])]
@@ -103,6 +115,50 @@ def _iso_worker(rec):
             # the fill-driven Split filled by an outer Split.run
             check_isolation(sc, rec["exp"], found, rec["src"], share=False, nested=True)
             cases.append((rl.case_hash(["isolation-inside-outer-split", sc]), True))
+    return (rl.plain(found) if found else found), cases
+
+
+def nest_actions(recs):
+    """How often every action of IsolationNest.tla is taken in the exported behaviours, and which kinds of
+    nesting occur (a behaviour is determined by its scenario)."""
+    acts = dict.fromkeys(("ReadBlock", "Child", "BlockDone", "Final"), 0)
+    kinds = dict.fromkeys(("nested:sequence", "nested:fc", "nested:fr", "nested:not-last", "nested:last",
+                           "nested:with-prefix", "nested:depth>=2", "nested:own-bufsize",
+                           "root:run", "root:fill", "root:fillreq", "root:zip"), 0)
+
+    def visit(node, last):
+        if not al.is_split(node):
+            return
+        kinds["nested:" + al.type_of(node)] += 1
+        kinds["nested:last" if last else "nested:not-last"] += 1
+        kinds["nested:with-prefix"] += 1 if node["muts"] else 0
+        kinds["nested:own-bufsize"] += 1 if node["ibs"] != NONE else 0
+        for j, c in enumerate(node["sub"]):
+            visit(c, j == len(node["sub"]) - 1)
+    for r in recs:
+        n, bs = r["N"], r["bs"]
+        blocks = n if r["drv"] != "run" else (0 if n == 0 else (1 if bs == NONE else -(-n // bs)))
+        acts["ReadBlock"] += blocks + 1
+        acts["Child"] += blocks * len(r["root"])
+        acts["BlockDone"] += blocks
+        acts["Final"] += 1
+        kinds["root:" + r["drv"]] += 1
+        kinds["nested:depth>=2"] += 1 if max(al.depth_of(c) for c in r["root"]) >= 2 else 0
+        for j, c in enumerate(r["root"]):
+            visit(c, j == len(r["root"]) - 1 and r["drv"] != "zip")
+    return acts, kinds
+
+
+def _nest_worker(rec):
+    """one exported scenario of IsolationNest.tla on the real Splits -> (findings, cases)"""
+    found, cases = {}, []
+    sc = {k: rec[k] for k in ("root", "N", "bs", "drv", "rq", "shape", "cls")}
+    check_isolation(sc, rec["exp"], found, rec["src"], share=False)
+    cases.append((rl.case_hash(["isolation-nested", sc]), rec["N"] > 0))
+    if rec["N"] > 0:
+        # stateless elements shared between the leaves, nested Splits wrapped into explicit sequences
+        check_isolation(sc, rec["exp"], found, rec["src"], share=True)
+        cases.append((rl.case_hash(["isolation-nested-shared-elements", sc]), True))
     return (rl.plain(found) if found else found), cases
 
 
@@ -260,6 +316,24 @@ def run(ctx):
         res = ctx.mc("Isolation", cfg, expect_violation="report")
         if res.violated != prop:
             raise core.MachineryError("the isolation model is insensitive: %s did not refute %s" % (cfg, prop))
+    # ---- nested Splits (IsolationNest): invariants checked and scenarios exported by one TLC run
+    recs_n = rl.mc_and_export(ctx, "IsolationNest", "IsolationNest_%s.cfg" % tag, (), min_records=1000,
+                              coverage=False, workers=ctx.nworkers)
+    if ctx.thorough:
+        # the quick trees once more with contexts of the other classes
+        recs_n = recs_n + rl.mc_and_export(ctx, "IsolationNest", "IsolationNest_thorough_cls.cfg", (),
+                                           min_records=1000, coverage=False, workers=ctx.nworkers)
+    acts_n, kinds_n = nest_actions(recs_n)
+    for a, n in list(acts_n.items()) + list(kinds_n.items()):
+        if n == 0:
+            raise core.MachineryError("vacuous model: %s of IsolationNest never taken / never occurs" % a)
+        ctx.actions[a] = ctx.actions.get(a, 0) + n
+    guards_n = (("IsolationNest_nestedshare.cfg", "Isolated"), ("IsolationNest_innernone.cfg", "Isolated"),
+                ("IsolationNest_nocopy.cfg", "Isolated"))
+    for cfg, prop in (guards_n if ctx.thorough else guards_n[:1]):
+        res = ctx.mc("IsolationNest", cfg, expect_violation="report")
+        if res.violated != prop:
+            raise core.MachineryError("the nested isolation model is insensitive: %s did not refute %s" % (cfg, prop))
     if ctx.thorough:
         ctx.mc("Alias", "Alias_thorough.cfg", coverage=True, must_cover=cover_b)
         recs_b = ctx.export("Alias", "Alias_thorough_export.cfg", min_records=500)
@@ -272,6 +346,9 @@ def run(ctx):
     ctx.extra["sensitivity"] = ["Isolation with CopyMode none/shallow, the last branch recognised by ==, hashable "
                                 "values passed uncopied by the fill-driven Split, or a Variable that copies its "
                                 "var_context shallowly: TLC refutes Isolated",
+                                "IsolationNest with a Split nested in a sequence that is given a copy anyway not "
+                                "copying again (nestedshare), no nested Split copying, or no Split copying: TLC "
+                                "refutes Isolated",
                                 "Alias with CopyOnCompute = none: TLC refutes Fresh and MutateIsLocal; "
                                 "with one copy per call shared by its results: TLC refutes Fresh"]
     # ---- A, spec -> code
@@ -283,6 +360,13 @@ def run(ctx):
             if key not in found or _size(val["scenario"]) < _size(found[key]["scenario"]):
                 found[key] = val
     ctx.sample({"spec_behaviour_isolation": recs[len(recs) // 2]})
+    # ---- A', spec -> code: nested Splits
+    for f, cases in rl.pmap(_nest_worker, recs_n):
+        rl.add_cases(ctx, cases)
+        for key, val in f.items():
+            if key not in found or _size(val["scenario"]) < _size(found[key]["scenario"]):
+                found[key] = val
+    ctx.sample({"spec_behaviour_nested_splits": recs_n[len(recs_n) // 2]})
     # ---- A, code -> spec
     rnd = random.Random(ctx.seed)
     trace = []
@@ -305,10 +389,33 @@ def run(ctx):
                     found[key] = {"scenario": sc, "branch": b}
             outs.append(ys)
         trace.append(dict(sc, outs=outs))
+    # ---- A', code -> spec: random trees of Splits (depth <= 3, <= 3 sequences per Split)
+    trace_n = []
+    for _ in range(2000 if ctx.thorough else 300):
+        sc = al.rand_tree(rnd)
+        try:
+            per, _values = al.run_tree(sc["root"], sc["N"], sc["bs"], sc["drv"], sc["rq"],
+                                       share=rnd.random() < 0.5, shape=sc["shape"], cls=sc["cls"])
+        except Exception as exc:     # noqa
+            key = "%s:nested-splits:raised:%s" % (DRIVER[sc["drv"]], exc_name(exc))
+            if key not in found or _size(sc) < _size(found[key]["scenario"]):
+                found[key] = {"scenario": sc, "exception": repr(exc)[:300]}
+            continue
+        outs = []
+        for b in range(1, len(al.leaves_of(sc["root"])) + 1):
+            ys = [p[0] for p in per.get(b, [])]
+            if ys != [p[1] for p in per.get(b, [])]:
+                key = "%s:nested-splits:yielded-value-changed-later" % DRIVER[sc["drv"]]
+                if key not in found:
+                    found[key] = {"scenario": sc, "branch": b}
+            outs.append(ys)
+        trace_n.append(dict(sc, outs=outs))
     for key in sorted(found):
         ctx.violation(key, found[key])
     ctx.trace_check("Trace_Isolation", "Trace_Isolation.cfg", trace,
                     lambda r: "%s:%s" % (DRIVER[r["drv"]], al.brs_key(r["brs"])))
+    ctx.trace_check("Trace_IsolationNest", "Trace_IsolationNest.cfg", trace_n,
+                    lambda r: "%s:%s" % (DRIVER[r["drv"]], al.tree_key(r["root"])), label="trace_nest")
 
     def corrupt_iso(r):
         for b, o in enumerate(r["outs"]):
@@ -318,6 +425,15 @@ def run(ctx):
                 return r
         return None
     ctx.binding_demo("Trace_Isolation", "Trace_Isolation.cfg", trace, corrupt_iso)
+
+    def corrupt_nest(r):
+        for b, o in enumerate(r["outs"]):
+            if o:
+                r = copy.deepcopy(r)
+                r["outs"][b][0]["d"].append(99)           # as if another leaf had appended to the same data object
+                return r
+        return None
+    ctx.binding_demo("Trace_IsolationNest", "Trace_IsolationNest.cfg", trace_n, corrupt_nest)
     # ---- B, spec -> code
     global _ONLY
     accs = al.accumulators()
@@ -394,7 +510,14 @@ def run(ctx):
              "run/fill/request/Zip driving, each also with stateless elements - the same Variable object - shared "
              "between branches, fill-driven Splits also inside an outer Split.run) executed on the real Split/Zip, every branch "
              "compared with its isolated result when yielded and at the end; (C2S) seeded random configurations "
-             "(<= 5 branches, random mutator chains) validated by Trace_Isolation.  B (S2C): every history "
+             "(<= 5 branches, random mutator chains) validated by Trace_Isolation.  A' nested Splits (S2C): every "
+             "scenario of the bounded IsolationNest model (trees of Splits: a Split - bare or behind prefix elements in a "
+             "Sequence / FillComputeSeq, with its own bufsize - as first / middle / last sequence of a Split or Zip, to "
+             "depth 2 (thorough 3), run-, fill/compute- and fill/request-type nested Splits, x flows x bufsizes x "
+             "run/fill/request/Zip driving of the root) executed on the real Splits, a second time with shared "
+             "stateless elements and the nested Splits wrapped into explicit sequences, every LEAF compared with "
+             "what its effective branch yields alone; (C2S) seeded random trees (depth <= 3, <= 3 sequences per "
+             "Split, random prefixes and element chains) validated by Trace_IsolationNest.  B (S2C): every history "
              "fill/compute/mutate of the bounded Alias model replayed on 19 real accumulators (6 of them yielding two results per compute()) with the producer's and the "
              "consumer's contexts compared after every action; (C2S) id()-graphs of random fill/compute histories of "
              "27 accumulators (incl. request-type, Split/Zip of accumulators, multi-result SplitIntoBins/Vectorize/Mean/FillRequest; contexts inside SplitIntoBins bins included) validated by Trace_Alias (Fresh, also between the results of one call). "
